@@ -152,12 +152,37 @@ def extend(rep, prop):
                 meta = json.load(open(mp))
                 if prop in meta.get("checks_fired", {}) and meta.get("confirmed"):
                     seeds.append((name, os.path.join(sdir, name, "patch.diff")))
+    # behaviour-preserving refactorings written independently of the checks (selftest/refactorings/*.diff):
+    # those that touch a source file this property's analysis reads must leave the check silent
+    refacs = []
+    rdir = os.path.join(VERIF, "selftest", "refactorings")
+    try:
+        from .mir import Program, norm_file
+
+        prog = Program()
+        files = set()
+        for k in rep.analysed.get("functions", ()):
+            b = prog.bodies.get(k)
+            if b is not None and not b.ext:
+                files.add(norm_file(b.span["file"]))
+        # generated tables come from the generators and their templates
+        if any("/generated/" in f or f.endswith(".rs") and "OUT_DIR" in f for f in files) or not files:
+            files.add("precis-tools/")
+    except Exception:
+        files = None
+    if os.path.isdir(rdir):
+        for name in sorted(os.listdir(rdir)):
+            if not name.endswith(".diff"):
+                continue
+            touched = [l[6:].strip() for l in open(os.path.join(rdir, name)) if l.startswith("+++ b/")]
+            if files is None or any(t in files or any(t.startswith(f) for f in files if f.endswith("/")) for t in touched):
+                refacs.append((name[:-5], os.path.join(rdir, name)))
     if prop == "C01":
         clippy_crossref(rep)
     if prop == "C16":
         witness_c16(rep)
     dst = _scratch()
-    n_break = n_keep = n_seed = 0
+    n_break = n_keep = n_seed = n_refac = 0
     t0 = time.time()
     try:
         for c in todo:
@@ -192,7 +217,16 @@ def extend(rep, prop):
             rc, fired = _run_check(prop, dst)
             n_seed += 1
             rep.ob("self-validation", "seeded change %s is reported" % name, rc == 1 and bool(fired), "the check stayed silent on an independently written breaking change", key="self-validation|seed|%s" % name)
+        for name, patch in refacs:
+            _sync(dst)
+            p = subprocess.run(["patch", "-p1", "-s", "-i", patch], cwd=dst, stdout=subprocess.PIPE, stderr=subprocess.STDOUT, text=True)
+            if p.returncode != 0:
+                rep.sample({"refactoring-skipped": name, "reason": "patch does not apply to the current tree"})
+                continue
+            rc, fired = _run_check(prop, dst)
+            n_refac += 1
+            rep.ob("self-validation", "refactoring %s stays silent" % name, rc == 0 and not fired, "the check fired on a behaviour-preserving refactoring: %s" % [l[:200] for l in fired[:2]], key="self-validation|refactoring|%s" % name)
     finally:
         shutil.rmtree(dst, ignore_errors=True)
-    rep.extra["thorough"] = {"break_cases": n_break, "keep_cases": n_keep, "seeded_changes": n_seed, "wall_s": round(time.time() - t0, 1)}
+    rep.extra["thorough"] = {"break_cases": n_break, "keep_cases": n_keep, "seeded_changes": n_seed, "refactorings": n_refac, "wall_s": round(time.time() - t0, 1)}
     return rep
